@@ -469,12 +469,28 @@ def rule_lookahead_accumulated(ctx, rep, config="c-lib"):
     f = p.fn("sit_set_lookahead")
     rep.cover(p, [f.name])
     memo = {}
+    # the set: what is read from sit->lookahead, or the value that is stored there (the set kept in a local until then)
+    set_vals = set()
+    for s_ in f.all_insts():
+        if s_.op == "store" and resolve_addr(f, s_.ops[1]).last_field() == "sit.lookahead":
+            o_ = strip_casts(f, s_.ops[0])
+            if o_.get("k") == "i":
+                set_vals.add(o_["v"])
+                ph_ = f.insts.get(o_["v"])
+                if ph_ is not None and ph_.op == "phi":
+                    set_vals.update(strip_casts(f, v_).get("v") for (v_, _) in ph_.d["incoming"] if strip_casts(f, v_).get("k") == "i")
+
+    def is_set(op):
+        lp_ = loaded_from(f, op)
+        if lp_ is not None and lp_.last_field() == "sit.lookahead":
+            return True
+        o_ = strip_casts(f, op)
+        return o_.get("k") == "i" and o_["v"] in set_vals
     ops = []
     for c in f.all_insts():
         if not c.is_call() or not c.args or not c.callee:
             continue
-        lp = loaded_from(f, c.args[0])
-        if lp is None or lp.last_field() != "sit.lookahead":
+        if not is_set(c.args[0]):
             continue
         if c.callee.startswith(("llvm.memcpy", "llvm.memmove", "llvm.memset")) or c.callee in ("memcpy", "memmove", "memset"):
             ops.append((c, "overwrite"))      # a helper written out (or inlined) here
@@ -493,6 +509,8 @@ def rule_lookahead_accumulated(ctx, rep, config="c-lib"):
         i = f.insts.get(o["v"])
         if i is None:
             return False
+        if o["v"] in set_vals:
+            return True
         if i.op == "load":
             return resolve_addr(f, i.ops[0]).last_field() == "sit.lookahead"
         if i.op == "getelementptr":
